@@ -42,6 +42,8 @@ def parse_opts(s):
             opts['opaque_macros'] += w[len('opaque='):].split(',')
         elif re.match(r'^R\d+$', w):
             opts['rules'].append(w)
+        elif w.startswith('drain='):
+            opts['drain_fn'] = w[len('drain='):]
         elif w.startswith('R28='):
             opts['rules'].append('R28')
             opts['r28_sigs'] = w[len('R28='):].split(',')
